@@ -11,6 +11,7 @@ structure CAcc where
   nthreads : Nat := 1
   decls : List Tp := []
   comps : List Comp := []
+  arrs : List (Nat × Arr) := []     -- the array of every compound object, as parsec_compose builds it
   lastCall : Nat := 0          -- 1 = parsec_context_start called, 2 = parsec_context_wait called
   startFired : Bool := false
   tpWaitOk : Bool := false
@@ -70,8 +71,9 @@ partial def rmw (a : CAcc) (t : Nat) : Option CAcc :=
       | some a' => fire a' (.ctx (.addInc t))
       | none => (fire a (.ctx (.addReturn t))).bind (fun a' => rmw a' t)
     | none => (fire a (.ctx (.addReturn t))).bind (fun a' => rmw a' t)
-  | some (.ncb _) => fire a (.ctx (.nestDec t))
   | some .none =>
+    if !((s.nests[t]?).getD []).isEmpty then fire a (.ctx (.nestDec t))   -- innermost nested termination first
+    else
     match s.bases[t]? with
     | some (.cb _) => fire a (.ctx (.dec t))
     | some .idle =>
@@ -98,16 +100,27 @@ def stepD (a : CAcc) : List String → CAcc × String
     | some id, some total =>
       if id = a.decls.length then (rebuild { a with decls := a.decls ++ [mkTp total false false] }, "ok") else (a, "bad-op")
     | _, _ => (a, "bad-op")
-  | "decl" :: "comp" :: cid :: ms =>
-    match nat? cid, nats? ms with
-    | some cid, some ms =>
-      if cid = a.decls.length ∧ ms.length ≥ 2 ∧ ms.all (· < cid) then
-        let a' := rebuild { a with decls := a.decls ++ [mkTp 0 false true], comps := a.comps ++ [{ self := cid, members := ms }] }
-        match compose ms with
-        | some arr => (a', s!"n={arr.nb} term={if arr.slots[arr.nb]? == some Slot.null && !arr.oob then 1 else 0} members={if slotOk arr ms then 1 else 0}")
-        | none => (a', "no-compound")
-      else (a, "bad-op")
-    | _, _ => (a, "bad-op")
+  | ["decl", "compose", rid, x, y] =>
+    match nat? rid, nat? x, nat? y with
+    | some rid, some x, some y =>
+      let isComp := a.comps.any (fun c => c.self == x)
+      if x ≥ a.decls.length ∨ y ≥ a.decls.length ∨ x = y then (a, "bad-op")
+      else if isComp then
+        if rid ≠ x then (a, "bad-op") else
+        let comps' := a.comps.map (fun c => if c.self == x then { c with members := c.members ++ [y] } else c)
+        let arrs' := a.arrs.map (fun e => if e.1 == x then (e.1, composeAppend e.2 y) else e)
+        let a' := rebuild { a with comps := comps', arrs := arrs' }
+        match arrs'.find? (fun e => e.1 == x) with
+        | some (_, arr) =>
+          (a', s!"kind=append n={arr.nb} term={if arr.slots[arr.nb]? == some Slot.null && !arr.oob then 1 else 0} members={",".intercalate ((arr.slots.take arr.nb).map (fun sl => match sl with | .tp i => toString i | _ => "-1"))}")
+        | none => (a', "no-array")
+      else
+        if rid ≠ a.decls.length then (a, "bad-op") else
+        let arr := composeNew x y
+        let a' := rebuild { a with decls := a.decls ++ [mkTp 0 false true], comps := a.comps ++ [{ self := rid, members := [x, y] }],
+                                   arrs := a.arrs ++ [(rid, arr)] }
+        (a', s!"kind=new n={arr.nb} term={if arr.slots[arr.nb]? == some Slot.null && !arr.oob then 1 else 0} members={",".intercalate ((arr.slots.take arr.nb).map (fun sl => match sl with | .tp i => toString i | _ => "-1"))}")
+    | _, _, _ => (a, "bad-op")
   | ["compose1", _] => (a, if (compose [0]).isNone then "same" else "different")
   | ["end"] =>
     let s := a.cs.base
@@ -155,7 +168,7 @@ def stepD (a : CAcc) : List String → CAcc × String
         | _ => reject a "add returned before the increment" t
       | "rmw" => accept (rmw a t) a "no transition of this thread modifies active_taskpools now" t
       | "cb" =>
-        if s.subs[t]? == some (.ncb xn) then (a, "ok")     -- callback of a compound, nested in its last member's callback
+        if ((s.nests[t]?).getD []).head? == some xn then (a, "ok")     -- callback of a compound, nested in its last member's callback
         else
         match s.subs[t]?, (s.tps[xn]?).map (fun p => p.early) with
         | some (.adding q), some true =>
@@ -164,7 +177,7 @@ def stepD (a : CAcc) : List String → CAcc × String
           let a0 := finishInternal a t
           accept (fire a0 (.ctx (.detect t xn))) a0 s!"completion callback of {xn} not enabled" t
       | "cbe" =>
-        if s.subs[t]? == some (.ncb xn) then (a, "ok")
+        if ((s.nests[t]?).getD []).head? == some xn then (a, "ok")
         else
         match s.bases[t]?, (s.tps[xn]?).map (fun p => p.st) with
         | some (.cb p), _ => if p = xn then (a, "ok") else reject a "end of the callback of another taskpool" t
@@ -175,12 +188,16 @@ def stepD (a : CAcc) : List String → CAcc × String
         | some c =>
           let a0 := finishInternal a t
           let comp := (a0.cs.comps[c]?).getD { self := 0, members := [] }
-          let cand := comp.members.filter (fun m => match a0.cs.base.tps[m]? with
-            | some p => p.st == .added && p.ended == p.total
-            | none => false)
-          match cand with
-          | m :: _ => accept (fire a0 (.memberCb t c m)) a0 s!"member callback of {m} not enabled" t
-          | [] => reject a0 "member callback but no member has all its tasks ended" t
+          -- the member that completed: a nested compound whose termination was just detected on this thread, or a leaf
+          match (comp.members[comp.completed]?).bind (fun m => compIndexOfSelf a0 m) with
+          | some c' => accept (fire a0 (.compCb t c c')) a0 s!"callback of the nested compound member not enabled" t
+          | none =>
+            let cand := comp.members.filter (fun m => match a0.cs.base.tps[m]? with
+              | some p => p.st == .added && p.ended == p.total && p.pend == 0
+              | none => false)
+            match cand with
+            | m :: _ => accept (fire a0 (.memberCb t c m)) a0 s!"member callback of {m} not enabled" t
+            | [] => reject a0 "member callback but no member has all its tasks ended" t
         | none => reject a "member callback of an unknown compound" t
       | "tb" =>
         let a0 := finishInternal a t
